@@ -8,7 +8,7 @@ use quote::ToTokens;
 use std::fmt::Write as _;
 
 const SERVICE_NAMES: &[&str] = &["Ledger", "HTTPGateway", "ledger_v2", "Svc2", "X", "FooBarBaz", "Result", "Service", "a_b_c", "IO", "Stream2", "my_svc"];
-const METHOD_NAMES: &[&str] = &["Post", "GetItem", "Type", "Match", "Move", "Loop", "Async", "Watch2", "A", "ListAll", "list_all_v2", "Send", "Unary", "Self_", "Box", "get_item", "Ready", "Connect", "Inner", "call", "HTTPGet"];
+const METHOD_NAMES: &[&str] = &["Post", "GetItem", "Getitem", "Type", "Match", "Move", "Loop", "Async", "Watch2", "A", "ListAll", "list_all_v2", "Send", "Unary", "Self_", "Box", "get_item", "Ready", "Connect", "Inner", "call", "HTTPGet"];
 const PACKAGES: &[Option<&str>] = &[None, Some("acme"), Some("acme.billing.v1"), Some("p7.q_r"), Some("A.B"), Some("x")];
 
 struct M {
@@ -30,8 +30,24 @@ struct G {
     arc_self: bool,
 }
 
+/// The Rust identifier two proto names would collide on (snake_case the way heck does it for the
+/// name shapes used here); names that differ only in letter case elsewhere stay distinct.
 fn snake_key(s: &str) -> String {
-    s.chars().filter(|c| *c != '_').flat_map(|c| c.to_lowercase()).collect()
+    let mut out = String::new();
+    let cs: Vec<char> = s.chars().collect();
+    for (i, c) in cs.iter().enumerate() {
+        if c.is_uppercase() {
+            let prev_lower = i > 0 && (cs[i - 1].is_lowercase() || cs[i - 1].is_ascii_digit());
+            let next_lower = i + 1 < cs.len() && cs[i + 1].is_lowercase();
+            if i > 0 && cs[i - 1] != '_' && (prev_lower || (cs[i - 1].is_uppercase() && next_lower)) {
+                out.push('_');
+            }
+            out.extend(c.to_lowercase());
+        } else {
+            out.push(*c);
+        }
+    }
+    out.trim_end_matches('_').to_string()
 }
 
 fn family() -> Vec<G> {
@@ -67,6 +83,17 @@ fn family() -> Vec<G> {
                 let (cs, ss) = (shape & 1 == 1, shape & 2 == 2);
                 shape += 1;
                 methods.push(M { name: mname.to_string(), cs, ss, req: format!("Req{}", t), resp: format!("Resp{}", t) });
+            }
+            // every fourth member: two rpcs whose names differ only in letter case
+            if gi % 4 == 1 && services.is_empty() {
+                for pair in ["GetItem", "Getitem"] {
+                    if !methods.iter().any(|m: &M| snake_key(&m.name) == snake_key(pair)) {
+                        t += 1;
+                        let (cs, ss) = (shape & 1 == 1, shape & 2 == 2);
+                        shape += 1;
+                        methods.push(M { name: pair.to_string(), cs, ss, req: format!("Req{}", t), resp: format!("Resp{}", t) });
+                    }
+                }
             }
             services.push(S { name: name.to_string(), methods });
         }
